@@ -74,3 +74,21 @@ package webrtc
 //@ props C08
 //@ nosafety
 //@ atcall (*sdp.MediaDescription).WithPropertyAttribute assert callarg1 != sdp.AttrKeyRTCPMux && callarg1 != sdp.AttrKeyRTCPRsize && transceiver.Direction() >= RTPTransceiverDirectionSendrecv && transceiver.Direction() <= RTPTransceiverDirectionInactive ==> callarg1 == transceiver.Direction().String()
+
+// Removing or adding the sending track moves the direction along the W3C table only:
+// a transceiver that loses its track stops sending (sendrecv -> recvonly, sendonly -> inactive,
+// never the reverse or sideways), one that gains a track starts sending; any other starting
+// point is refused and leaves the direction alone. An answerer that removes its track between
+// SetRemoteDescription and CreateAnswer therefore cannot end up receiving what was not offered.
+//@ func (*RTPTransceiver).setSendingTrack #directions
+//@ props C08
+//@ nosafety
+//@ requires t != nil
+//@ observe old(t.Direction())
+//@ ensures err == nil && track == nil && old(t.Direction()) == RTPTransceiverDirectionSendrecv ==> t.Direction() == RTPTransceiverDirectionRecvonly
+//@ ensures err == nil && track == nil && old(t.Direction()) == RTPTransceiverDirectionSendonly ==> t.Direction() == RTPTransceiverDirectionInactive
+//@ ensures err == nil && track != nil && old(t.Direction()) == RTPTransceiverDirectionRecvonly ==> t.Direction() == RTPTransceiverDirectionSendrecv
+//@ ensures err == nil && track != nil && old(t.Direction()) == RTPTransceiverDirectionInactive ==> t.Direction() == RTPTransceiverDirectionSendonly
+//@ ensures err == nil && track != nil && (old(t.Direction()) == RTPTransceiverDirectionSendrecv || old(t.Direction()) == RTPTransceiverDirectionSendonly) ==> t.Direction() == old(t.Direction())
+//@ ensures err == nil && track == nil ==> old(t.Direction()) == RTPTransceiverDirectionSendrecv || old(t.Direction()) == RTPTransceiverDirectionSendonly
+//@ ensures err != nil ==> t.Direction() == old(t.Direction())
